@@ -719,12 +719,12 @@ func genHTTP(r *vh.Rng) Case {
 
 // ---- cancellation ----
 
-var cancelTargets = []string{"http", "fedserver", "gateway", "gateway-sibling"}
+var cancelTargets = []string{"http", "fedserver", "gateway", "gateway-sibling", "http-samekey"}
 
 func genCancel(r *vh.Rng, k int) Case {
 	t := cancelTargets[k%len(cancelTargets)]
 	when := []string{"before", "during"}[(k/len(cancelTargets))%2]
-	if t == "gateway-sibling" {
+	if t == "gateway-sibling" || t == "http-samekey" {
 		when = "during"
 	}
 	return Case{Stream: "cancel", Target: t, When: when, Origin: "script"}
